@@ -105,7 +105,7 @@ Proof.
     pose proof (ks_collect_loop H srv cfg F) as HL; set (FF := F) in *
   end.
   assert (HF : forall s i0, FF s i0 = FF s i0) by reflexivity.
-  specialize (HL ltac:(intros [[[[q0 b0] ri0] st0] rc0] i0; reflexivity)).
+  specialize (HL ltac:(body_eq)).
   specialize (HL (range_n 0 (N.of_nat n)) q buf ri rc st i).
   assert (Hlen : length (range_n 0 (N.of_nat n)) = n).
   { unfold range_n. rewrite map_length, seq_length. lia. }
